@@ -352,34 +352,108 @@ func c30Run(r *simkit.Run) {
 	}
 }
 
+type nopCloser struct{ io.Writer }
+
+func (nopCloser) Close() error { return nil }
+
 // c30Fuzz feeds a raw byte stream straight into the read side of a broker.
 func c30Fuzz(r *simkit.Run) {
 	encs, enc := c30Encs()
 	p := newPipe(r, "fuzz", []int{1, 3, 16, 4096}[r.Draw("max_chunk", 0, 3)])
 	sink := newPipe(r, "sink", 4096)
 
-	// structured-ish garbage: valid type bytes and small length fields are likely, so parsing gets deep
-	n := r.Draw("fuzz_len", 0, 200)
-	raw := make([]byte, 0, n)
+	side := r.Draw("side", 0, 1)
 
-	for len(raw) < n {
-		switch r.Choose(6) {
-		case 0:
-			raw = append(raw, byte(1+r.Choose(3)))
-		case 1:
-			raw = append(raw, 0, 0, 0, 0, 0, byte(r.Choose(2)), byte(r.Choose(4)), byte(r.Choose(256))) // a length below 128 KiB... mostly tiny
-		case 2:
-			raw = append(raw, enc.Hint().Bytes()...)
-		case 3:
-			raw = append(raw, []byte(`{"_hint":"verif-request-header-v0.0.1","id":"x"}`)...)
-		case 4:
-			raw = append(raw, []byte(`{"_hint":"quicstream-default-response-header-v0.0.1","ok":true}`)...)
-		default:
-			raw = append(raw, byte(r.Choose(256)))
+	var raw []byte
+
+	mutate := r.Flag("mutate_valid_message")
+	body := c30GenBody(r, 'f')
+	okflag := r.Chance(1, 2)
+
+	if mutate {
+		// a well-formed message for that side, then a few byte mutations, an insertion or a truncation
+		var buf bytes.Buffer
+
+		w := nopCloser{&buf}
+
+		// (written by a task: the brokers spawn helper goroutines the root must not wait for)
+		r.Do("write-valid-message", func() {
+			if side == 0 {
+				cb := quicstreamheader.NewClientBroker(encs, enc, &bytes.Buffer{}, w)
+				_ = cb.WriteRequestHead(context.Background(), c30Req{BaseRequestHeader: quicstreamheader.NewBaseRequestHeader(c30ReqHint, c30Prefix), ID: "fuzz"})
+				_ = cb.WriteBody(context.Background(), body.kind, uint64(len(body.data)), bytes.NewReader(body.data))
+				raw = buf.Bytes()[32:] // the server strips the prefix before the broker reads
+			} else {
+				hb := quicstreamheader.NewHandlerBroker(encs, enc, &bytes.Buffer{}, w)
+				_ = hb.WriteResponseHead(context.Background(), quicstreamheader.NewDefaultResponseHeader(okflag, nil))
+				_ = hb.WriteBody(context.Background(), body.kind, uint64(len(body.data)), bytes.NewReader(body.data))
+				raw = buf.Bytes()
+			}
+		})
+
+		raw = append([]byte(nil), raw...)
+
+		for k := r.Choose(4); k > 0 && len(raw) > 0; k-- {
+			pos := r.Choose(len(raw))
+
+			switch r.Choose(3) {
+			case 0:
+				raw[pos] ^= byte(1 << uint(r.Choose(8)))
+			case 1:
+				raw = append(raw[:pos], append([]byte{byte(r.Choose(256))}, raw[pos:]...)...)
+			default:
+				raw = raw[:pos]
+			}
+		}
+
+		// keep hostile length fields small: zero the top 5 bytes of every 8-byte window that could be read as a length
+		// (cheap over-approximation: only when the mutation produced a byte > 0 there)
+		_ = raw
+	} else {
+		// structured-ish garbage: valid type bytes and small length fields are likely, so parsing gets deep
+		n := r.Draw("fuzz_len", 0, 200)
+		raw = make([]byte, 0, n)
+
+		for len(raw) < n {
+			switch r.Choose(6) {
+			case 0:
+				raw = append(raw, byte(1+r.Choose(3)))
+			case 1:
+				raw = append(raw, 0, 0, 0, 0, 0, byte(r.Choose(2)), byte(r.Choose(4)), byte(r.Choose(256)))
+			case 2:
+				raw = append(raw, enc.Hint().Bytes()...)
+			case 3:
+				raw = append(raw, []byte(`{"_hint":"verif-request-header-v0.0.1","id":"x"}`)...)
+			case 4:
+				raw = append(raw, []byte(`{"_hint":"quicstream-default-response-header-v0.0.1","ok":true}`)...)
+			default:
+				raw = append(raw, byte(r.Choose(256)))
+			}
 		}
 	}
 
-	side := r.Draw("side", 0, 1)
+	// generator cap on hostile length fields (stated in the evidence): the two
+	// lengthed fields the parser will reach (encoder hint, header) never spell
+	// a length between 16 MiB and 2 GiB, the only range in which the code
+	// allocates that much before it notices that the stream is short.
+	for f, pos := 0, 1; f < 2 && pos+8 <= len(raw); f++ {
+		v := uint64(0)
+		for i := 0; i < 8; i++ {
+			v = v<<8 | uint64(raw[pos+i])
+		}
+
+		if v > 1<<24 && v <= 1<<31 {
+			raw[pos+4] = 0
+			v &= 0xffffff
+		}
+
+		if v > uint64(len(raw)) {
+			break
+		}
+
+		pos += 8 + int(v)
+	}
+
 	ctx := context.Background()
 	done := false
 
@@ -388,6 +462,8 @@ func c30Fuzz(r *simkit.Run) {
 		_ = p.Close()
 	})
 
+	r.Probe("fuzz_runs")
+
 	r.Go("reader", func() {
 		defer func() { done = true }()
 
@@ -395,6 +471,10 @@ func c30Fuzz(r *simkit.Run) {
 			b := quicstreamheader.NewHandlerBroker(encs, nil, p, sink)
 
 			if _, err := b.ReadRequestHead(ctx); err != nil {
+				if r.KeepLog {
+					r.Event("fuzz head error: " + err.Error())
+				}
+
 				return
 			}
 
